@@ -19,6 +19,10 @@ pub fn replay_probe<H: HB>(c: &Case, q: &AnyQ<H>, m: &Model, unordered: bool) ->
                 return crate::post::from_iter_differential::<H>(c.double, &c.universe, seq, true).map(|_| ()).map_err(|e| e.1);
             }
         }
+        "serde-round-trip" => {
+            let cfg = crate::props::base_cfg("C15", c.universe.len() as u32, &[0, 1, 2], A_CORE | A_CLEAR_DRAIN | A_ITER_MUT);
+            return with_q!(q, x => crate::c15::round_trip(x, m, &cfg)).map(|_| ());
+        }
         "append-pair" | "eq-pair" => {
             if let Some((d, r, ops)) = &c.aux {
                 let (b, _, _) = crate::post::rebuild_state::<H>(*d, r, ops, &c.universe)?;
